@@ -25,14 +25,18 @@ import (
 
 // pick draws an index in [0,n) (nearly) uniformly.  rapid's integer generators favour small
 // values and range ends (index 0 of 24 came up four times as often as index 20), which is good
-// for sizes but wrong for choosing a subject; the draw is therefore scrambled.
+// for sizes but wrong for choosing a subject; two draws are scrambled together (one scrambled draw
+// still gave a 3.5:1 spread, two give 1.2:1).
 func pick(t *rapid.T, label string, n int) int {
-	x := rapid.Uint64().Draw(t, label)
+	x := mix64(rapid.Uint64().Draw(t, label)) + rapid.Uint64().Draw(t, label+"'")
+	return int(mix64(x) % uint64(n))
+}
+
+func mix64(x uint64) uint64 {
 	x += 0x9e3779b97f4a7c15
 	x = (x ^ (x >> 30)) * 0xbf58476d1ce4e5b9
 	x = (x ^ (x >> 27)) * 0x94d049bb133111eb
-	x ^= x >> 31
-	return int(x % uint64(n))
+	return x ^ (x >> 31)
 }
 
 func pickFrom[T any](t *rapid.T, label string, xs []T) T { return xs[pick(t, label, len(xs))] }
